@@ -188,6 +188,9 @@ func runWorker(chk *Check, tier string, shard, n int, resume, only int64, skip [
 	cmd.Env = append(append(os.Environ(), "GOMAXPROCS=2", "GOMEMLIMIT=3GiB", "GOTRACEBACK=single", "VERIF_HASH_SEED="+HashSeed(),
 		// race-instrumented drivers (E2): reports go to a log the worker turns into failures; they must not kill it
 		"GORACE=halt_on_error=0 exitcode=0 history_size=5 log_path="+raceLog, "VERIF_RACE_LOG="+raceLog), env...)
+	if fc := os.Getenv("VERIF_FROZEN_CONCURRENCY"); fc != "" {
+		cmd.Env = append(cmd.Env, "FROZEN_CONCURRENCY="+fc)
+	}
 	var out, errb bytes.Buffer
 	cmd.Stdout = &out
 	cmd.Stderr = &errb
@@ -546,6 +549,11 @@ func parent(chk *Check, tier string) int {
 				// a value was mutated earlier in that worker (reported separately as a
 				// violation); failures downstream of the mutation need not reproduce alone
 				fmt.Printf("note: %q did not reproduce in isolation (%d/5); it followed a detected mutation of a shared value\n", newSigs[i], ok[i])
+				continue
+			}
+			if m.Fails[newSigs[i]].Class == "race" {
+				// the race detector reports each pair of accesses once per process and which pair it
+				// names first depends on its bounded history: a race report is evidence on its own
 				continue
 			}
 			if ok[i] < 5 {
